@@ -1168,26 +1168,34 @@ fn match_validate_arm_kinds(
         if matches!(arm.pattern, Pattern::Wildcard) {
             continue;
         }
-        let mut arm_env = base_env.clone();
-        let applicable = match arm.pattern {
-            Pattern::Wildcard => true,
-            _ => crate::patterns::pattern_matches_value_with_semantics(
-                &arm.pattern,
-                source,
-                &mut arm_env,
-                p,
-                crate::patterns::PatternMatchSemantics::OptionGuard,
-            )?,
+        // The other arms are only inspected for this diagnostic: they are not the arm that runs, so an arm
+        // whose guard or body cannot be evaluated for this subject (an error or a kernel panic) is skipped.
+        let inspected = std::panic::catch_unwind(std::panic::AssertUnwindSafe(|| -> MResult<Option<ValueKind>> {
+            let mut arm_env = base_env.clone();
+            let applicable = match arm.pattern {
+                Pattern::Wildcard => true,
+                _ => crate::patterns::pattern_matches_value_with_semantics(
+                    &arm.pattern,
+                    source,
+                    &mut arm_env,
+                    p,
+                    crate::patterns::PatternMatchSemantics::OptionGuard,
+                )?,
+            };
+            let passed_guard = applicable && match &arm.guard {
+                Some(guard) => guard_expression_true(guard, &arm_env, p)?,
+                None => true,
+            };
+            if !(applicable && passed_guard) {
+                return Ok(None);
+            }
+            let arm_value = expression(&arm.expression, Some(&arm_env), p)?;
+            Ok(Some(arm_value.kind()))
+        }));
+        let arm_kind = match inspected {
+            Ok(Ok(Some(kind))) => kind,
+            _ => continue,
         };
-        let passed_guard = applicable && match &arm.guard {
-            Some(guard) => guard_expression_true(guard, &arm_env, p)?,
-            None => true,
-        };
-        if !(applicable && passed_guard) {
-            continue;
-        }
-        let arm_value = expression(&arm.expression, Some(&arm_env), p)?;
-        let arm_kind = arm_value.kind();
         if arm_kind != *matched_kind {
             return Err(MechError::new(
                 MatchArmKindMismatchError {
